@@ -209,6 +209,10 @@ class Interp:
         self.loop_limit = LOOP_LIMIT
         self.state_limit = PATH_LIMIT * 50
         self.lists = {}           # list id -> length (k-bounded list model, see listmodel.py)
+        self.frame_fn = {}        # frame id -> function (types of locals)
+        self.getptrs_hook = None  # data model: get_ptrs of the abstract root lockable appends the modelled leaves
+        self.model_vecs = False   # Vec::new / HashSet::new create modelled containers (semantic container rules)
+        self.addrs = {}           # list id -> model address of each element (duplicate / sort rules)
         self.roles = {}           # crate-local helper path -> discovered role (anchors.py)
 
     # ---- opaque registry ------------------------------------------------
@@ -260,6 +264,15 @@ class Interp:
         return None
 
     def loc_ty(self, loc):
+        if loc[0] == "L":
+            f = self.frame_fn.get(loc[1])
+            try:
+                t = f["mir"]["locals"][loc[2]]["ty"] if f else None
+            except (IndexError, KeyError, TypeError):
+                t = None
+            for p in loc[3]:
+                t = self.proj_ty(t, p)
+            return t
         if loc[0] != "O":
             return None
         t = self.optype.get(loc[1])
@@ -417,6 +430,22 @@ class Interp:
             return self.fresh_op(st, "k", t, tag=("constant", s))
         raise Undecided("operand %r" % k)
 
+    def _fat_operand(self, fid, op):
+        """is the static type of this operand a wide pointer (to a trait object or slice)?  Comparing those compares the
+        metadata too, which the address model does not know."""
+        t = None
+        if op["k"] in ("copy", "move"):
+            f = self.frame_fn.get(fid)
+            try:
+                t = f["mir"]["locals"][op["place"]["l"]]["ty"] if f and not op["place"]["p"] else None
+            except (IndexError, KeyError, TypeError):
+                t = None
+        elif op["k"] == "const":
+            t = op.get("ty")
+        if t is None:
+            return False
+        return t["k"] in ("ptr", "ref") and t["ty"]["k"] in ("dyn", "slice", "str")
+
     # ---- rvalues ----------------------------------------------------------
     def resolve_bool(self, st, v):
         """Return (base_oid, polarity) for an opaque boolean (follows Not chains), or None."""
@@ -458,6 +487,13 @@ class Interp:
                     return Const(r)
                 except KeyError:
                     pass
+            if getattr(self, "addrs", None) and op in ("Eq", "Ne", "Lt", "Le", "Gt", "Ge") and not self._fat_operand(fid, rv["a"]) \
+                    and not self._fat_operand(fid, rv["b"]):
+                import listmodel
+                xa = a[1] if a[0] == "const" and isinstance(a[1], int) else listmodel.addr_of(self, a)
+                xb = b[1] if b[0] == "const" and isinstance(b[1], int) else listmodel.addr_of(self, b)
+                if xa is not None and xb is not None:
+                    return Const({"Eq": xa == xb, "Ne": xa != xb, "Lt": xa < xb, "Le": xa <= xb, "Gt": xa > xb, "Ge": xa >= xb}[op])
             r = self.fresh_op(st, "b", tag=("binop", op, a, b))
             if op.endswith("WithOverflow"):
                 return Agg("tuple", "", 0, [r, self.fresh_op(st, "ovf", tag=("overflow",))])
@@ -660,6 +696,7 @@ class Interp:
         if m is None:
             raise Undecided("no MIR for %s" % fn["path"])
         fid = st.fresh("f")
+        self.frame_fn[fid] = fn
         if len(args) != m["arg_count"]:
             raise Undecided("arity mismatch calling %s: %d vs %d" % (fn["path"], len(args), m["arg_count"]))
         for i, a in enumerate(args):
@@ -1133,6 +1170,10 @@ class Interp:
                     return self.inline(st, lfn, args, depth)
             return self.assume_event(st, fn, name, args, line, dest_ty, tdef)
         if trait == "lockable::Lockable" and name == "get_ptrs":
+            if self.getptrs_hook is not None:
+                out = self.getptrs_hook(self, st, fn, ce, args, line, depth)
+                if out is not None:
+                    return out
             recv = self.recv_of(st, args[0])
             self.emit(st, {"k": "GETPTRS", "recv": self.recv_name(recv), "into": args[1], "impl": tdef}, fn, line)
             return [("ret", UNIT, st)]
